@@ -2585,6 +2585,10 @@ def lower_properties(repo):
                 props.pop(x.attr, None)
             elif isinstance(x, ast.Constant) and isinstance(x.value, str) and x.value in props:
                 props.pop(x.value, None)
+            elif isinstance(x, ast.Call) and isinstance(x.func, ast.Attribute) and x.func.attr in props:
+                # the name is also called somewhere (``match.end()``): objects from outside the
+                # package answer to it too
+                props.pop(x.func.attr, None)
     if not props:
         return 0
 
